@@ -30,6 +30,8 @@ def _first_diff(a, b):
 def _shape(line):
     """log line -> structural token: op name and result *kinds*, operands stripped"""
     s = re.sub(r"0x[0-9a-f]+", 'ADDR', str(line))
+    if ' -> ' in s:                      # `odd` machine: the catalogue label is the structure
+        return s[:110]
     toks = s.split(' ')
     # drop the step number, keep the op word; keep exception names and booleans, drop labels / numbers
     toks = [t for t in toks if not re.fullmatch(r"-?\d+", t)]
@@ -39,13 +41,31 @@ def _shape(line):
     return (head + '|' + ','.join(kinds[:4]))[:120]
 
 
+def _tag(c):
+    return c.impl + ('' if c.iro == 'default' else '/' + c.iro) + ('' if c.hashseed == '0' else '/h' + c.hashseed)
+
+
+def all_diffs(prop_id, la, lb, ca, cb, cap=12):
+    """every differing line when the logs line up (same length), else only the first difference"""
+    if len(la) != len(lb):
+        fp, d = diff_fingerprint(prop_id, la, lb, ca, cb)
+        return [(fp, d)] if fp else []
+    out = []
+    for i, (x, y) in enumerate(zip(la, lb)):
+        if x != y:
+            fp = '%s|diff|%s-vs-%s|%s|%s' % (prop_id, _tag(ca), _tag(cb), _shape(x), _shape(y))
+            out.append((fp, {'line': i, 'a': str(x)[:400], 'b': str(y)[:400], 'config_a': ca.label(), 'config_b': cb.label()}))
+            if len(out) >= cap:
+                break
+    return out
+
+
 def diff_fingerprint(prop_id, la, lb, ca, cb):
     d = _first_diff(la, lb)
     if d is None:
         return None, None
     i, x, y = d
-    fp = '%s|diff|%s-vs-%s|%s|%s' % (prop_id, ca.impl + ('' if ca.iro == 'default' else '/' + ca.iro),
-                                      cb.impl + ('' if cb.iro == 'default' else '/' + cb.iro), _shape(x), _shape(y))
+    fp = '%s|diff|%s-vs-%s|%s|%s' % (prop_id, _tag(ca), _tag(cb), _shape(x), _shape(y))
     return fp, {'line': i, 'a': str(x)[:400], 'b': str(y)[:400], 'config_a': ca.label(), 'config_b': cb.label()}
 
 
@@ -57,19 +77,25 @@ def _run_logs(pool, machine, mode, cfgs, program, timeout):
 
 
 def compare_program(pool, prop_id, part, program, ca, cb):
-    """-> (fingerprint, detail) or (None, None); crashes count as differences"""
+    """-> (fingerprint, detail) of the first difference, or (None, None); crashes count as differences"""
+    r = compare_program_all(pool, prop_id, part, program, ca, cb)
+    return r[0] if r else (None, None)
+
+
+def compare_program_all(pool, prop_id, part, program, ca, cb):
+    """-> list of (fingerprint, detail)"""
     ra, rb = _run_logs(pool, part.machine, part.mode, [ca, cb], program, part.timeout)
     for r, c in ((ra, ca), (rb, cb)):
         if r.get('harness_error'):
-            return 'HARNESS', {'error': r['harness_error'][-600:], 'config': c.label()}
+            return [('HARNESS', {'error': r['harness_error'][-600:], 'config': c.label()})]
         if r.get('timeout'):
-            return 'HARNESS', {'error': 'timeout', 'config': c.label()}
+            return [('HARNESS', {'error': 'timeout', 'config': c.label()})]
     if ra.get('crash') is not None or rb.get('crash') is not None:
         if (ra.get('crash') is not None) != (rb.get('crash') is not None) or ra.get('crash') != rb.get('crash'):
-            return '%s|diff|crash|%s:%s|%s:%s' % (prop_id, ca.impl, ra.get('crash'), cb.impl, rb.get('crash')), \
-                {'a': ra.get('crash'), 'b': rb.get('crash'), 'config_a': ca.label(), 'config_b': cb.label()}
-        return None, None
-    return diff_fingerprint(prop_id, ra.get('log') or [], rb.get('log') or [], ca, cb)
+            return [('%s|diff|crash|%s:%s|%s:%s' % (prop_id, ca.impl, ra.get('crash'), cb.impl, rb.get('crash')),
+                     {'a': ra.get('crash'), 'b': rb.get('crash'), 'config_a': ca.label(), 'config_b': cb.label()})]
+        return []
+    return all_diffs(prop_id, ra.get('log') or [], rb.get('log') or [], ca, cb)
 
 
 def run_part(pool, prop, part, verif_seed, n, budget, extra_cov):
@@ -112,14 +138,15 @@ def run_part(pool, prop, part, verif_seed, n, budget, extra_cov):
     groups = {}
     for s, c in suspects[:400]:
         program = mod.generate(s, part.mode)
-        fp, detail = compare_program(pool, prop.id, part, program, base, c)
-        if fp is None:
+        diffs = compare_program_all(pool, prop.id, part, program, base, c)
+        if not diffs:
             agg.harness_errors.append((c.label(), {'seed': s}, 'digests differed but logs are identical (non-determinism?)'))
             continue
-        if fp == 'HARNESS':
-            agg.harness_errors.append((c.label(), {'seed': s}, str(detail)))
-            continue
-        groups.setdefault(fp, []).append((s, c, program, detail))
+        for fp, detail in diffs:
+            if fp == 'HARNESS':
+                agg.harness_errors.append((c.label(), {'seed': s}, str(detail)))
+                continue
+            groups.setdefault(fp, []).append((s, c, program, detail))
     agg.diff_groups = groups
 
     def handler(pool, prop, part, known, report, out):
@@ -139,8 +166,7 @@ def run_part(pool, prop, part, verif_seed, n, budget, extra_cov):
                 def tester(programs):
                     res = []
                     for p in programs:
-                        fp2, _d = compare_program(pool, prop.id, part, p, base, c)
-                        res.append(fp2 == fp)
+                        res.append(any(fp2 == fp for fp2, _d in compare_program_all(pool, prop.id, part, p, base, c)))
                     return res
                 try:
                     if tester([program])[0]:
@@ -165,5 +191,8 @@ def run_part(pool, prop, part, verif_seed, n, budget, extra_cov):
 def replay_diff(pool, part, doc):
     ca = Config.from_dict(doc['config'])
     cb = Config.from_dict(doc['diff_config'])
-    fp, detail = compare_program(pool, doc['property'], part, doc['program'], ca, cb)
-    return fp == doc['fingerprint'], {'fingerprint': fp, 'detail': detail}
+    diffs = compare_program_all(pool, doc['property'], part, doc['program'], ca, cb)
+    for fp, detail in diffs:
+        if fp == doc['fingerprint']:
+            return True, {'fingerprint': fp, 'detail': detail}
+    return False, {'found': [fp for fp, _d in diffs]}
